@@ -10,6 +10,9 @@ Not every standard helper can satisfy `Implements` (and for those the tree seman
 of the argument values" is not what rare documents either):
 * helpers that demand *constant* arguments (`bucket`'s size, `format`'s pattern, `select`'s index …)
   answer a compile error for `{f {0} {1}}`;
+* helpers that type-check constant arguments at compile time (`{sumi abc 1}`: compile error
+  `ErrorNum` – the value `<BAD-TYPE>` is still what the tree semantics of `sumi` says, but "compiles
+  without errors" fails; with integer or non-constant arguments they are pure functions);
 * helpers that evaluate an argument in a sub-context (`@map`, `@filter`, `@reduce`, `@for`, user functions
   with `{0}` rebinding) – the argument's value in the caller's context is not what they use;
 * `{time live}` / `{time delta}` (not a function of the arguments at all);
@@ -38,7 +41,7 @@ theorem map_run_3 {ctx : Ctx} {c t e : Stage} {vals : List Bytes}
 
 /-- `{if c t e}` is lazy (only one branch is run), yet implements if-then-else on the values. -/
 theorem kfIf_implements : Implements Funcs.Logic.kfIf ifSem 3 := by
-  intro cargs hlen
+  intro cargs hlen _
   match cargs, hlen with
   | [c, t, e], _ =>
     refine ⟨_, rfl, fun ctx vals h => ?_⟩
@@ -51,7 +54,7 @@ theorem kfIf_implements : Implements Funcs.Logic.kfIf ifSem 3 := by
     · exact he
 
 theorem kfNot_implements : Implements Funcs.Logic.kfNot notSem 1 := by
-  intro cargs hlen
+  intro cargs hlen _
   match cargs, hlen with
   | [a], _ =>
     refine ⟨_, rfl, fun ctx vals h => ?_⟩
@@ -62,7 +65,7 @@ theorem kfNot_implements : Implements Funcs.Logic.kfNot notSem 1 := by
 
 theorem kfEq_implements :
     Implements (Funcs.Logic.stringComparator fun a b => if a = b then TruthyVal else FalsyVal) eqSem 2 := by
-  intro cargs hlen
+  intro cargs hlen _
   match cargs, hlen with
   | [a, b], _ =>
     refine ⟨_, rfl, fun ctx vals h => ?_⟩
